@@ -11,6 +11,7 @@ func TestMain(m *testing.M) { harn.Main(m) }
 func init() {
 	harn.Register("C02_Write", RunWrite)
 	harn.Register("C03_Read", RunRead)
+	harn.Register("C02_RW", RunRW)
 	harn.Register("C03_Wait", RunWait)
 }
 
@@ -18,6 +19,8 @@ func TestReplay(t *testing.T)  { harn.Replay(t) }
 func TestRegress(t *testing.T) { harn.Regress(t) }
 
 func TestC02_Write(t *testing.T) { harn.Check(t, "C02_Write", GenWriteCase, RunWrite) }
+
+func TestC02_RW(t *testing.T) { harn.Check(t, "C02_RW", GenRWCase, RunRW) }
 
 func TestC03_Read(t *testing.T) { harn.Check(t, "C03_Read", GenReadCase, RunRead) }
 
